@@ -893,6 +893,13 @@ pub fn replay_outer(p: &dyn Property, file: &Path) -> i32 {
     }
 }
 
+/// Deterministic sampling: whether a case also goes through the (expensive) real
+/// binary is a function of the tape, so that a failure found there is still a
+/// failure when the same tape is re-judged (shrinking, replay).
+pub fn tape_sample(tape: &[u8], every: u64) -> bool {
+    every <= 1 || mix(digest(tape)) % every == 0
+}
+
 pub fn flush() {
     let _ = std::io::stdout().flush();
 }
